@@ -38,7 +38,9 @@ fn solve(rem: usize) -> Vec<usize> {
 enum Asm {
     OneCell,
     MiBCells,
-    SmallThenGiant,
+    /// first cell ends `gap` bytes before the packet boundary (gap 1..3), so the next cell's length
+    /// prefix straddles the boundary with `gap` bytes of room left in the packet
+    SmallThenGiant(usize),
     GiantThenSmall,
 }
 
@@ -57,10 +59,10 @@ fn assemble(target: usize, overhead: usize, asm: Asm) -> Option<Vec<usize>> {
             v.extend(solve(r));
             Some(v)
         }
-        Asm::SmallThenGiant => {
-            // first cell ends 2 bytes before the packet boundary, so the boundary falls inside the
+        Asm::SmallThenGiant(gap) => {
+            // first cell ends `gap` bytes before the packet boundary, so the boundary falls inside the
             // next cell's length prefix
-            let e1 = MAXP - 2 - overhead;
+            let e1 = MAXP - gap - overhead;
             if rem < e1 + 254 {
                 return None;
             }
@@ -223,10 +225,10 @@ pub fn run(ctx: &Ctx) -> Report {
         }
         let mut cases: Vec<(usize, Asm, bool, usize)> = Vec::new();
         for (ti, &t) in targets.iter().enumerate() {
-            let asms: Vec<Asm> = if ctx.thorough { vec![Asm::OneCell, Asm::MiBCells, Asm::SmallThenGiant, Asm::GiantThenSmall] } else if t == 2 * MAXP { vec![Asm::OneCell, Asm::MiBCells] } else { vec![[Asm::OneCell, Asm::MiBCells, Asm::GiantThenSmall][ti % 3], Asm::SmallThenGiant] };
+            let asms: Vec<Asm> = if ctx.thorough { vec![Asm::OneCell, Asm::MiBCells, Asm::SmallThenGiant(1), Asm::SmallThenGiant(2), Asm::SmallThenGiant(3), Asm::GiantThenSmall] } else if t == 2 * MAXP { vec![Asm::OneCell, Asm::MiBCells] } else { vec![[Asm::OneCell, Asm::MiBCells, Asm::GiantThenSmall][ti % 3], Asm::SmallThenGiant(1), Asm::SmallThenGiant(2)] };
             for a in asms {
                 for bin in [false, true] {
-                    if !ctx.thorough && bin != (ti % 2 == 0) && a != Asm::SmallThenGiant && t != 2 * MAXP {
+                    if !ctx.thorough && bin != (ti % 2 == 0) && !matches!(a, Asm::SmallThenGiant(_)) && t != 2 * MAXP {
                         continue;
                     }
                     let wl = if (ti + bin as usize) % 3 == 0 { 65_536 } else { usize::MAX };
